@@ -714,12 +714,13 @@ Section CacheProofs.
   Qed.
 End CacheProofs.
 
-(* ------------------------------------------------------------------ finding C14-F1 (witness) *)
-(* only the metadata of the searched schema itself is stripped: two schemas equal up to
-   annotations at EVERY level are not identified by the cache.  Toy schema type: a node
-   carries an annotation flag and at most one subschema. *)
+(* ------------------------------------------------------------------ former finding C14-F1 *)
+(* Before fix a0b7480 only the metadata of the searched schema itself was stripped.  Now
+   [strip] removes it at every depth.  Concrete instance on a toy schema type (a node carries
+   an annotation flag and at most one subschema): [toy_deep] is the visitor-based strip,
+   [toy_top] the former one. *)
 Inductive toy := TLeaf (ann : bool) | TNode (ann : bool) (c : toy).
-Definition toy_strip (t : toy) : toy := match t with TLeaf _ => TLeaf false | TNode _ c => TNode false c end.
+Definition toy_top (t : toy) : toy := match t with TLeaf _ => TLeaf false | TNode _ c => TNode false c end.
 Fixpoint toy_deep (t : toy) : toy := match t with TLeaf _ => TLeaf false | TNode _ c => TNode false (toy_deep c) end.
 Fixpoint toy_eqb (a b : toy) : bool :=
   match a, b with
@@ -728,10 +729,33 @@ Fixpoint toy_eqb (a b : toy) : bool :=
   | _, _ => false
   end.
 
-Theorem convert_nested_annotation_refuted : exists s s' r,
+Lemma toy_eqb_spec : forall a b, toy_eqb a b = true <-> a = b.
+Proof.
+  induction a as [x|x c IH]; intros [y|y d]; simpl; split; intros H; try discriminate H.
+  - apply eqb_prop in H. subst. reflexivity.
+  - injection H as ->. apply eqb_reflx.
+  - apply andb_prop in H as [H1 H2]. apply eqb_prop in H1. apply IH in H2. subst. reflexivity.
+  - injection H as -> ->. rewrite eqb_reflx. apply IH. reflexivity.
+Qed.
+
+Lemma toy_deep_idem : forall t, toy_deep (toy_deep t) = toy_deep t.
+Proof. induction t as [x|x c IH]; simpl; [reflexivity|]. rewrite IH. reflexivity. Qed.
+
+(* schemas that differ only in annotations, at whatever depth, reach the same conversion *)
+Theorem convert_ignores_nested_annotations : forall before s r after s' conv_obj,
+  toy_deep s' = toy_deep s ->
+  (forall sr, In sr before -> toy_deep (fst sr) <> toy_deep s) ->
+  convert_schema toy toy_deep toy_eqb (cache_of toy toy_deep (before ++ (s, r) :: after)) conv_obj s' = native_entry r.
+Proof.
+  intros before s r after s' conv_obj E Hb.
+  apply (convert_first_wins toy toy_deep toy_eqb toy_eqb_spec before s r after s' E Hb).
+Qed.
+
+(* ... which the former top-level strip did not achieve (regression witness of C14-F1) *)
+Theorem top_level_strip_misses : exists s s' r,
   toy_deep s = toy_deep s' /\
-  cache_lookup toy toy_strip toy_eqb (cache_of toy toy_strip [(s, r)]) s = Some (native_entry r) /\
-  cache_lookup toy toy_strip toy_eqb (cache_of toy toy_strip [(s, r)]) s' = None.
+  cache_lookup toy toy_top toy_eqb (cache_of toy toy_top [(s, r)]) s' = None /\
+  cache_lookup toy toy_deep toy_eqb (cache_of toy toy_deep [(s, r)]) s' = Some (native_entry r).
 Proof. exists (TNode false (TLeaf false)), (TNode true (TLeaf true)), (mkRepl [] []). vm_compute. repeat split. Qed.
 
 (* ------------------------------------------------------------------ former finding C14-F2 *)
